@@ -47,6 +47,53 @@ K("C19", "h_core", "c19_ops::proofs::c19_fr_terncond", bounds=_C19_BOUND, units=
 
 
 # ------------------------------------------------------------------------------------------------
+# C06 / C07 / C08 / C15 — Merkle tree backends (inductive step from an arbitrary state + base case)
+# ------------------------------------------------------------------------------------------------
+FM = "zerokit_utils::merkle_tree::full_merkle_tree::FullMerkleTree::"
+OM = "zerokit_utils::merkle_tree::optimal_merkle_tree::OptimalMerkleTree::"
+_UNITS = {
+    "set": ["set", "set_range", "update_nodes/update_hashes"], "set_max": ["set (position usize::MAX)"], "delete": ["delete", "set"],
+    "append": ["update_next", "set"], "setrange": ["set_range", "update_nodes/update_hashes"],
+    "override_inrange": ["override_range", "set_range"], "new": ["new", "default"], "proofs": ["proof", "verify", "compute_root_from", "leaf_index", "get_path_index", "get_path_elements"],
+}
+
+
+def _tree_bound(d, what):
+    return ("depth %d (capacity %d); pre-state: ARBITRARY abstract state (high-water mark, written flags, leaf values <= 255) in any representation "
+            "satisfying the representation invariant; one operation '%s' with symbolic arguments (positions 0..capacity inclusive%s; ranges <= 3 leaves, batch <= 2 leaves + <= 2 removals); "
+            "post: all observables + representation invariant; unwind %d; toy hasher (seed-selected mixer), Fr = u64"
+            % (d, 1 << d, what, ", and usize::MAX" if "max" in what or what == "delete" else "", {1: 8, 2: 10, 3: 18}[d]))
+
+
+for (mod, pre, U) in (("full", "full", FM), ("optimal", "opt", OM)):
+    def T(pid, name, d, what, tier, mem=6, tmo=1500, expect="pass", obs=""):
+        K(pid, "h_utils", "%s::proofs::%s_%s" % (mod, pre, name), tier=tier, mem_gb=mem, timeout_s=tmo,
+          bounds=_tree_bound(d, what) + (" observing " + obs if obs else ""), units=[U + u for u in _UNITS.get(what, [what])],
+          expect=expect, replay_body="%s_%s" % (pre, name))
+    # C06
+    for what in ("set", "set_max", "delete", "append", "setrange"):
+        T("C06", "d2_step_" + what, 2, what, "quick")
+        if what != "set_max":
+            T("C06", "d1_step_" + what, 1, what, "thorough")
+            T("C06", "d3_step_" + what, 3, what, "thorough", mem=12, tmo=3000)
+    T("C06", "d2_new", 2, "new", "quick")
+    # C07
+    T("C07", "d2_c07_proofs", 2, "proofs", "quick")
+    T("C07", "d1_c07_proofs", 1, "proofs", "quick")
+    T("C07", "d3_c07_proofs", 3, "proofs", "thorough", mem=12, tmo=3000)
+    # C08
+    T("C08", "d1_step_override_inrange", 1, "override_inrange", "quick")
+    T("C08", "d2_step_override_inrange", 2, "override_inrange", "thorough", mem=10, tmo=3000)
+    for w in ("emptyrem", "remafter", "rembefore", "beyondcap"):
+        T("C08", "d1_override_witness_" + w, 1, "override_range", "quick", expect="known")
+    # C15
+    for what in ("set", "delete", "append", "setrange"):
+        T("C15", "d2_c15_" + what, 2, what, "quick", obs="the empty-index list")
+    T("C15", "d1_c15_override_inrange", 1, "override_inrange", "quick", obs="the empty-index list")
+    T("C15", "d2_c15_override_inrange", 2, "override_inrange", "thorough", mem=10, tmo=3000, obs="the empty-index list")
+    T("C15", "d3_c15_setrange", 3, "setrange", "thorough", mem=12, tmo=3000, obs="the empty-index list")
+
+# ------------------------------------------------------------------------------------------------
 ASSUMPTIONS = {
     "_common": [
         "Kani 0.68 / CBMC 6.11 / cadical are sound for the compiled MIR (trusted tools)",
@@ -54,6 +101,13 @@ ASSUMPTIONS = {
         "ark-ff MontBackend under cfg(kani): identity representation (into_bigint/from_bigint), add/sub/neg/compare are the real code, "
         "mul/square/inverse are a fixed commutative mixing function (uninterpreted-function instance) — no claim depends on true products",
         "harness bounds (unwind, sizes) are as listed per sample; unwinding assertions are on, so a too-small bound fails the run instead of truncating",
+    ],
+    "_trees": [
+        "FullMerkleTree / OptimalMerkleTree are verified as regenerated copies of /repo's current source files (function bodies byte-identical; "
+        "imports rebound; std HashMap -> ArrMap finite-map model for the Optimal backend); instantiation Hasher = toy mixer over u64",
+        "inductive argument: base case (new) + one step from an arbitrary state satisfying the representation invariant, which the step re-establishes; "
+        "this covers histories of any length at the stated depths; depths above 3 are outside the claim",
+        "pre-states of the Optimal backend contain no map entries outside the tree (reachable only through rejected/empty requests and never read)",
     ],
     "C19": [
         "oracle written from circom's documentation in 256-bit limb arithmetic (engine_k/vlib/vlib.rs)",
@@ -64,7 +118,8 @@ ASSUMPTIONS = {
 
 
 def assumptions_for(pid):
-    return ASSUMPTIONS["_common"] + ASSUMPTIONS.get(pid, [])
+    extra = ASSUMPTIONS["_trees"] if pid in ("C06", "C07", "C08", "C15", "C16") else []
+    return ASSUMPTIONS["_common"] + extra + ASSUMPTIONS.get(pid, [])
 
 
 def all_entries():
